@@ -530,9 +530,12 @@ def finish(tier: str, base: int, merged: Dict[str, Any]) -> Dict[str, Any]:
                 problems.append(f"stdout {real_out[:80]!r} vs {obs['stdout'][:80]!r}")
             if real_file != obs["outputs"].get("/out.json", ""):
                 problems.append("output file differs")
-            if real_tb != (obs["escaped"] is not None):
-                problems.append(f"traceback {real_tb} vs escaped {obs['escaped']}")
-            if not real_tb and real_err != obs["stderr"]:
+            if obs["escaped"] is not None:
+                # an exception leaving main() is the interpreter's traceback + status 1
+                last = real_err.strip().splitlines()[-1] if real_err.strip() else ""
+                if not real_tb or not last.startswith(obs["escaped"]) and obs["escaped"] not in last:
+                    problems.append(f"in-process exception {obs['escaped']} vs real stderr tail {last[:80]!r}")
+            elif real_err != obs["stderr"]:
                 problems.append(f"stderr {real_err[:80]!r} vs {obs['stderr'][:80]!r}")
             if problems:
                 raise driver.HarnessError(f"stub fidelity mismatch for argv={sc['argv']} fault={sc['fault']} channel={sc['channel']} stdin_errors={sc['stdin_errors']}: " + "; ".join(problems))
